@@ -63,25 +63,27 @@ def apply_one(driver, ctx, ev, path, acc):
         acc["mm"].append(m)
 
 
-def walk(driver, ctx, kids, path, acc):
-    while len(kids) == 1:
-        ev, sub = kids[0]
-        path = path + [ev]
-        apply_one(driver, ctx, ev, path, acc)
-        kids = sub
-    for ev, sub in kids:
+def walk(driver, ctx, node, path, acc):
+    """node = [segment (events applied in this process), kids]; fork only where the tree branches"""
+    while True:
+        seg, kids = node
+        for ev in seg:
+            path = path + [ev] if len(path) < 40 else path[:39] + [ev]
+            apply_one(driver, ctx, ev, path, acc)
+        if len(kids) != 1:
+            break
+        node = kids[0]
+    for kid in kids:
         r, w = os.pipe()
         pid = os.fork()
         if pid == 0:
             os.close(r)
             res = {"n": 0, "mm": [], "stats": {}}
             try:
-                p2 = path + [ev]
-                apply_one(driver, ctx, ev, p2, res)
-                walk(driver, ctx, sub, p2, res)
+                walk(driver, ctx, kid, path, res)
             except BaseException:
                 res["mm"].append({"prop": "MACHINERY", "key": "walk exception",
-                                  "detail": traceback.format_exc(), "path": path + [ev]})
+                                  "detail": traceback.format_exc(), "path": path})
             try:
                 send(w, res)
             finally:
@@ -91,7 +93,7 @@ def walk(driver, ctx, kids, path, acc):
         os.close(r)
         os.waitpid(pid, 0)
         if res is None:
-            acc["mm"].append({"prop": "MACHINERY", "key": "child died", "detail": "", "path": path + [ev]})
+            acc["mm"].append({"prop": "MACHINERY", "key": "child died", "detail": "", "path": path})
         else:
             merge(acc, res)
 
@@ -107,10 +109,7 @@ def run_task(driver, task):
             driver.apply(ev, ctx, {})
         except Exception:
             pass
-    ev, sub = task["tree"]
-    path = path + [ev]
-    apply_one(driver, ctx, ev, path, acc)
-    walk(driver, ctx, sub, path, acc)
+    walk(driver, ctx, task["tree"], path, acc)
     return acc
 
 
@@ -145,6 +144,8 @@ def main():
     spec, kwargs, tasks_file, out_file, procs = sys.argv[1:6]
     procs = int(procs)
     modname, clsname = spec.split(":")
+    if kwargs.startswith("@"):
+        kwargs = open(kwargs[1:]).read()
     driver = getattr(importlib.import_module(modname), clsname)(**json.loads(kwargs))
     driver.prepare()
     workers = []
@@ -203,7 +204,10 @@ def main():
     acc["tasks"] = ntasks
     # keep the result file bounded: one full record per distinct key, the rest counted
     seen = {}
+    obs = [m for m in acc["mm"] if m.get("prop") == "OBS"]
     for m in acc["mm"]:
+        if m.get("prop") == "OBS":
+            continue
         k = (m.get("prop"), m.get("key"))
         if k in seen:
             cnt = seen[k].get("count", 1) + 1
@@ -213,6 +217,9 @@ def main():
         else:
             seen[k] = m
     acc["mm"] = list(seen.values())
+    for m in obs:
+        m.pop("path", None)
+    acc["obs"] = obs
     with open(out_file, "w") as f:
         json.dump(acc, f)
 
